@@ -100,6 +100,9 @@ pub fn judge(ctx: &Ctx, l: &mut Local, p: &Params, site: Site, date: NaiveDate, 
 
 pub fn explore(ctx: &Ctx) {
     // call sequences from non-initial states (see history.rs)
+    if ctx.tier == Tier::Thorough {
+        crate::history::explore(ctx, "policy_full", &crate::history::alphabet_policy_full(), 2);
+    }
     crate::history::explore(ctx, "long_ranges", &crate::history::alphabet_long_ranges(), 2);
     crate::history::explore(ctx, "policy", &crate::history::alphabet_policy(), 3);
     let quick = ctx.tier == Tier::Quick;
